@@ -204,6 +204,67 @@ func blsSections(t *T) {
 		res, e4 := crypto.BatchVerifyBLSSignaturesOneMessage([]crypto.PublicKey{pa, pa, pb, pa}, []crypto.Signature{sa, sa, sb, sb}, msg, h)
 		t.line("bls-corner", "verify-dups", dg(msg), fmt.Sprintf("%v/%s/%v/%s/%v/%s/%v/%s", ok1, errClass(e1), ok2, errClass(e2), ok3, errClass(e3), res, errClass(e4)))
 	}
+	// many distinct (key, message) couples: more than one Miller-loop batch
+	for _, k := range []int{15, 16, 17, 24, 33} {
+		var pp []crypto.PublicKey
+		var ms [][]byte
+		var hs []hash.Hasher
+		var ss []crypto.Signature
+		for j := 0; j < k; j++ {
+			sk, err := crypto.GeneratePrivateKey(blsAlg, rb(r, 32))
+			if err != nil {
+				continue
+			}
+			m := rb(r, 8+j%5)
+			sg, _ := sk.Sign(m, h)
+			pp, ms, hs, ss = append(pp, sk.PublicKey()), append(ms, m), append(hs, h), append(ss, sg)
+		}
+		agg, _ := crypto.AggregateBLSSignatures(ss)
+		ok1, e1 := crypto.VerifyBLSSignatureManyMessages(pp, agg, ms, hs)
+		ok2, e2 := crypto.VerifyBLSSignatureManyMessages(pp, ss[0], ms, hs)
+		res, e3 := crypto.BatchVerifyBLSSignaturesOneMessage(pp, ss, ms[0], h)
+		t.line("bls-agg", "many-distinct", k, fmt.Sprintf("%v/%s/%v/%s/%v/%s", ok1, errClass(e1), ok2, errClass(e2), res, errClass(e3)))
+	}
+	// threshold groups with many signers and index sets mixing small and large indices
+	for _, cfg := range [][2]int{{254, 9}, {254, 16}, {200, 11}, {64, 23}} {
+		nn, tt := cfg[0], cfg[1]
+		seed := rb(r, 32)
+		tsks, _, gpk, err := crypto.BLSThresholdKeyGen(nn, tt, seed)
+		if err != nil {
+			t.line("bls-thr", "keygen-large", fmt.Sprint(nn, tt), errClass(err))
+			continue
+		}
+		msg := rb(r, 10)
+		hk := crypto.NewExpandMsgXOFKMAC128("thr")
+		sets := [][]int{}
+		mixed := []int{}
+		for j := 0; j < tt; j++ {
+			mixed = append(mixed, j)
+		}
+		mixed = append(mixed, nn-5)
+		top := []int{}
+		for j := 0; j <= tt; j++ {
+			top = append(top, nn-1-j)
+		}
+		alt := []int{}
+		for lo, hi := 0, nn-1; len(alt) <= tt; lo, hi = lo+1, hi-1 {
+			alt = append(alt, lo)
+			if len(alt) <= tt {
+				alt = append(alt, hi)
+			}
+		}
+		sets = append(sets, mixed, top, alt, r.Perm(nn)[:tt+1])
+		for _, signers := range sets {
+			var shares []crypto.Signature
+			for _, s := range signers {
+				sg, _ := tsks[s].Sign(msg, hk)
+				shares = append(shares, sg)
+			}
+			ts, err := crypto.BLSReconstructThresholdSignature(nn, tt, shares, signers)
+			ok, _ := gpk.Verify(ts, msg, hk)
+			t.line("bls-thr", fmt.Sprintf("reconstruct-large/%d/%d", nn, tt), fmt.Sprint(signers[:3], "..", signers[len(signers)-1]), fmt.Sprintf("%s/%s/%v", hx(ts), errClass(err), ok))
+		}
+	}
 	// threshold
 	for i := 0; i < rounds; i++ {
 		nn := 2 + r.IntN(9)
